@@ -425,10 +425,12 @@ func apisim(t *testing.T, tp *simrt.Tape, opts RunOpts) *Outcome {
 				chk.viol("refused-action-changed-state", a.Kind+"/"+why, "%s (%s) was answered %d but changed %v", a.Kind, why, o.resp.Code, changed)
 			}
 			// ... nor what the server itself shows of the addressed run
+			// (what is shown of a run recorded as running depends on whether an agent of the DAG answers at that
+			// moment, so the two views are comparable only if no agent of the DAG lived between them)
 			runAliveAroundViews := false
-			if pid, ok := pidOfReq[o.reqID]; ok {
-				if sp, ok := spawnSeq[pid]; ok && sp < o.vret && end(pid) > o.vinv {
-					runAliveAroundViews = true // the run's own process changes what is shown of it
+			for _, cp := range agentsOf(d) {
+				if sp, ok := spawnSeq[cp.proc.Pid]; ok && sp < o.vret && end(cp.proc.Pid) > o.vinv {
+					runAliveAroundViews = true
 				}
 			}
 			if o.viewBefore != nil && o.viewAfter != nil && !runAliveAroundViews && statusVector(o.viewBefore) != statusVector(o.viewAfter) {
